@@ -97,9 +97,25 @@ def m3_molecule_accessors(S):
 
 
 def m4_discovery_decode_uses_verified_readers(S):
-    """hand-written decoding of discovery messages: every molecule accessor is applied to a reader that came out of a successful
-    `from_compatible_slice`/`from_slice` (directly or as a sub-reader); only then do the accessor guarantees of m3 apply"""
-    ob = "C16.m4"
+    """hand-written decoding of peer messages in ckb-network (discovery, identify, ping): every molecule accessor is applied to a
+    reader that came out of a successful `from_compatible_slice`/`from_slice` (directly or as a sub-reader); only then do the
+    accessor guarantees of m3 apply"""
+    for label, finder, nargs in (
+            ("discovery", lambda: S.fn("DiscoveryMessage::decode"), 1),
+            ("identify_message", lambda: _one(S, "decode", "identify/protocol.rs"), 1),
+            ("identify_verify", lambda: _one(S, "verify", "identify/mod.rs"), 2),
+            ("ping", lambda: _one(S, "decode", "protocols/ping.rs"), 1)):
+        _taint_decode(S, "C16.m4", label, finder(), nargs)
+
+
+def _one(S, name, file_part):
+    c = [f for f in S.prog.by_short.get(name, []) if file_part in f.name and "{closure" not in f.name]
+    if len(c) != 1:
+        raise Inconclusive(f"{name} in {file_part}: {len(c)} candidates")
+    return c[0]
+
+
+def _taint_decode(S, ob, label, fn, nargs):
     ctx = S.ctx(unwind=3)
     ctx.uninterpreted_unknown_calls = True
     bad = []
@@ -152,16 +168,18 @@ def m4_discovery_decode_uses_verified_readers(S):
         (E.rx(r"ReaderIterator<'_, '_> as Iterator>::next$"), it_next),
         (E.rx(r"^\w+Reader::<'_>::\w+$|^\w+::as_reader$|Reader<'_> as .*Reader<'_>>::as_slice$|Reader<'_> as Into<\w+>>::into$|ReaderIterator<'_, '_> as IntoIterator>::into_iter$"), accessor),
         (E.rx(r"Multiaddr as TryFrom"), lambda ex, c, a, d: mk_result(ex.ctx.bool(f"addr_ok_{len(ex.log)}_{len(ex.choices)}").t, OpaqueV("addr", "Multiaddr"), OpaqueV("aerr", "Error"), d)),
+        (E.rx(r"as_utf8$"), lambda ex, c, a, d: mk_result(ex.ctx.bool(f"utf8_ok_{len(ex.log)}_{len(ex.choices)}").t, OpaqueV("str", "&str"), OpaqueV("uerr", "Utf8Error"), d)),
+        (E.rx(r"PartialEq.*>::(eq|ne)$"), lambda ex, c, a, d: ex.ctx.bool(f"eq_{len(ex.log)}_{len(ex.choices)}")),
         (E.rx(r"copy_from_slice$|to_vec$|from_bits_truncate$|from_bits_retain$|Vec::<.*>::(with_capacity|push)$|as Into<.*>>::into$"), E.opaque_call()),
     ]
-    fn = S.fn("DiscoveryMessage::decode")
     from mir2smt.exec import SliceV
     L = ctx.int("len", "usize")
-    ps = S.run(ctx, fn, [SliceV("data", 0, L.t)], allow=("return", "panic", "unwind"))
+    args = [SliceV("data", 0, L.t)] if nargs == 1 else [ctx.ref_to(OpaqueV("self_", "Self")), SliceV("data", 0, L.t)]
+    ps = S.run(ctx, fn, args, allow=("return", "panic", "unwind"))
     n_acc = sum(1 for p in ps for e in p.log if e[0] == "acc")
-    S.prove(ctx, ob, "every_accessor_runs_on_a_verified_reader", [], T.not_(T.or_(*[c for _, c in bad])) if bad else True,
+    S.prove(ctx, ob, f"{label}_every_accessor_runs_on_a_verified_reader", [], T.not_(T.or_(*[c for _, c in bad])) if bad else True,
             extra={"unverified_accessor_calls": [c for c, _ in bad][:5]})
-    S.prove(ctx, ob, "accessor_calls_observed", [], bool(n_acc >= 10))
+    S.prove(ctx, ob, f"{label}_accessor_calls_observed", [], bool(n_acc >= 2))
 
 
 OBLIGATIONS = [m1_extension_accessors, m2_frame_guard, m3_molecule_accessors, m4_discovery_decode_uses_verified_readers]
